@@ -6,14 +6,14 @@ use serde::{Deserialize, Serialize};
 use std::collections::HashMap;
 
 #[derive(Serialize, Deserialize, PartialEq)]
-pub struct ResourcesState(HashMap<String, String>);
+pub struct ResourcesState(HashMap<(std::path::PathBuf, String), String>);
 
 impl ResourcesState {
     pub async fn current(cmds: &[CmdResource]) -> Result<Self> {
         let futures = cmds.iter().map(|resource| async move {
             get_cmd_stdout(resource)
                 .await
-                .map(|stdout| (resource.cmd.to_string(), stdout))
+                .map(|stdout| (get_cmd_key(resource), stdout))
         });
 
         let vec = future::try_join_all(futures).await?;
@@ -23,7 +23,7 @@ impl ResourcesState {
     pub async fn eq_current_state(&self, cmds: &[CmdResource]) -> bool {
         let futures = cmds.iter().cloned().map(|resource| async move {
             match get_cmd_stdout(&resource).await {
-                Ok(stdout) => self.0.get(&resource.cmd) == Some(&stdout),
+                Ok(stdout) => self.0.get(&get_cmd_key(&resource)) == Some(&stdout),
                 Err(e) => {
                     log::error!("Command {} failed to execute: {}", resource.cmd, e);
                     false
@@ -33,6 +33,11 @@ impl ResourcesState {
 
         async_utils::all(futures).await
     }
+}
+
+/// The same command can be declared in several project directories.
+fn get_cmd_key(resource: &CmdResource) -> (std::path::PathBuf, String) {
+    (resource.dir.clone().into(), resource.cmd.to_string())
 }
 
 async fn get_cmd_stdout(resource: &CmdResource) -> Result<String> {
